@@ -125,24 +125,17 @@ def harness(ctx):
 
 
 def run_impl(exe, hs, timeout):
-    """outputs per history; a crash/timeout ends the batch: the rest is re-run in a fresh process"""
-    res, todo = [], list(hs)
-    while todo:
-        lines = vlib.run_exe([exe], text_of(todo), timeout)
-        parts = vlib.split_histories(lines)
-        if lines and lines[-1].startswith('!!'):
-            k = min(len(parts), len(todo)) - 1
-            res += parts[:k]
-            last = parts[k] if len(parts) <= len(todo) else parts[k] + parts[-1]
-            if not any(l.startswith('!!') for l in last):
-                last = last + [lines[-1]]
-            res.append(last)
-            todo = todo[k + 1:]
-        else:
-            res += parts[:len(todo)]
-            res += [['!! missing']] * (len(todo) - len(parts[:len(todo)]))
-            todo = []
-    return res
+    """outputs per history, in order; a crash / hang / timeout ends the batch: the history in which it happened is the
+    last one returned (its output ends with a `!!` line) and the rest is not run (the caller reports the first failure)"""
+    lines = vlib.run_exe([exe], text_of(hs), timeout)
+    parts = vlib.split_histories(lines)
+    if lines and lines[-1].startswith('!!'):
+        k = min(len(parts), len(hs)) - 1
+        last = parts[k] if len(parts) <= len(hs) else parts[k] + parts[-1]
+        if not any('!!' in l for l in last):
+            last = last + [lines[-1]]
+        return parts[:k] + [last]
+    return parts[:len(hs)]
 
 
 def run_model(ctx, hs, timeout):
@@ -167,7 +160,7 @@ def judge(out, verdict):
     m = re.match(r'verdict=(\S+) owed=\[([\d,]*)\] mustget=\[([\d,]*)\]', verdict or '')
     if not m:
         return 'no-verdict: ' + str(verdict)
-    if m.group(1) != 'ok':
+    if m.group(1).startswith('event-'):
         return m.group(1)
     if out and ' Q:' in ' ' + out[-1]:          # the history ends with the quiescent run
         if 'Q:busy' in out[-1]:
@@ -176,19 +169,23 @@ def judge(out, verdict):
             return f'lost-wakeup: accepted request(s) for fibre(s) [{m.group(2)}] never dispatched by the quiescent run'
         if m.group(3):
             return f'lost-event: event(s) [{m.group(3)}] whose send returned true never reached the handler'
+    if m.group(1) != 'ok':
+        return m.group(1)
     return None
 
 
 def evaluate(ctx, exe, hs, timeout=120):
+    """(implementation output, model output, specification complaint or None) per history — only up to the first
+    history in which the harness died"""
     impl = run_impl(exe, hs, timeout)
+    hs = hs[:len(impl)]
     model = run_model(ctx, hs, timeout)
     ver = run_spec(ctx, impl, timeout)
     res = []
     for i, h in enumerate(hs):
-        io = impl[i] if i < len(impl) else ['!! missing']
         mo = model[i] if i < len(model) else ['!! missing']
         v = ver[i] if i < len(ver) else None
-        res.append((io, mo, judge(io, v)))
+        res.append((impl[i], mo, judge(impl[i], v)))
     return res
 
 
@@ -254,7 +251,7 @@ def report(ctx, exe, h, why, label):
             return False
         io, mo, bad = evaluate(ctx, exe, [c], 60)[0]
         return bad is not None and bad.split(':')[0].split('(')[0] == kind
-    small = shrink(fails, h)
+    small = shrink(fails, h, budget=60 if kind in ('crash', 'never-idle') else 500)
     io, mo, bad = evaluate(ctx, exe, [small], 60)[0]
     k = vlib.diff_streams(io, mo)
     ctx.violation({'obligation': f'{label}: the real fibre.c + messageq.c under scripted interrupts vs the abstract specification (Spec/IsrSpec.lean)',
@@ -272,25 +269,29 @@ def check_group(ctx, exe, hs, label, stats, timeout):
         return 0
     res = evaluate(ctx, exe, hs, timeout)
     agreed = 0
+    if len(res) < len(hs) and not (res and res[-1][2]):
+        raise vlib.Infra(f'{label}: the harness produced {len(res)} of {len(hs)} outputs without reporting a crash')
     for h, (io, mo, bad) in zip(hs, res):
         tally(stats, io)
         if bad is None and io == mo:
             agreed += 1
-            continue
+    # a history on which the real code violates the specification comes first …
+    for h, (io, mo, bad) in zip(hs, res):
         if bad is not None:
             report(ctx, exe, h, bad, label)
             return agreed
-        k = vlib.diff_streams(io, mo)
-        if not any(b.startswith('correspondence') for b in ctx.broken):
+    # … otherwise a difference between the real code and the model (the specification being satisfied) is a broken correspondence
+    for h, (io, mo, bad) in zip(hs, res):
+        if io != mo and not any(b.startswith('correspondence') for b in ctx.broken):
             def fails(c):
-                a, b, bad2 = evaluate(ctx, exe, [c], 60)[0]
-                return valid(c) and a != b
+                r = evaluate(ctx, exe, [c], 60)
+                return valid(c) and bool(r) and r[0][0] != r[0][1]
             small = shrink(fails, h, budget=200)
             a, b, _ = evaluate(ctx, exe, [small], 60)[0]
             k = vlib.diff_streams(a, b)
             ctx.broken.append(f'correspondence {label}: the implementation differs from the model (the abstract specification is satisfied on this history) at output line {k}: '
                               f'ops={lines_of(small)} impl={a[max(0, (k or 0) - 1):(k or 0) + 2]} model={b[max(0, (k or 0) - 1):(k or 0) + 2]}')
-        return agreed
+            break
     return agreed
 
 
@@ -562,7 +563,7 @@ def run(ctx):
         a = 0
         for off in range(0, len(hs), 20000):
             a += check_group(ctx, exe, hs[off:off + 20000], label, stats, 300 if quick else 1800)
-            if len(ctx.violations) > nviol or ctx.broken:
+            if len(ctx.violations) > nviol:
                 break
         per_group[label] = {'histories': len(hs), 'agreed': a}
         total += a
@@ -580,7 +581,7 @@ def run(ctx):
             part = deep[off:off + 20000]
             impl = run_impl(exe, part, 1800)
             ver = run_spec(ctx, impl, 1800)
-            hit = [(i, judge(impl[i], ver[i] if i < len(ver) else None)) for i in range(len(part))]
+            hit = [(i, judge(impl[i], ver[i] if i < len(ver) else None)) for i in range(len(impl))]
             hit = [(i, b) for (i, b) in hit if b]
             if hit:
                 report(ctx, exe, part[hit[0][0]], hit[0][1], 'deep search')
